@@ -39,7 +39,8 @@ CONSTANTS Kinds,       \* subset of {"usb", "tcp", "udp", "radio"} explored
           MaxErr,      \* link-error reports
           HsMax,       \* safelink handshake attempts (10 in the code)
           Retries,     \* radio: lost frames in a row before the link error
-          JamLen       \* frames lost by one jam
+          JamLen,      \* frames lost by one jam
+          KeepHistory  \* FALSE: h stays empty (trace validation: only the monitor state mon is carried along)
 
 P == INSTANCE DriverCloseProps
 
@@ -75,7 +76,7 @@ ConnWrites(k) == k \in {"tcp", "udp"}
 CloseWrites(k) == k = "udp"
 KindFaults(k) == IF k \in {"usb", "tcp"} THEN {"none", "f1", "f2"} ELSE {"none"}
 E(e, a) == P!E(e, a)
-Log(e, a) == /\ h' = Append(h, E(e, a))
+Log(e, a) == /\ h' = IF KeepHistory THEN Append(h, E(e, a)) ELSE h
              /\ mon' = [m |-> P!MonStep(mon.m, E(e, a)),
                          c |-> IF mon.c # "ok" THEN mon.c ELSE P!EvClause(mon.m, E(e, a))]
 
@@ -151,11 +152,11 @@ CloseCore(failed, ended) ==
     /\ outq' = IF Bug = "keepOutQueue" THEN outq ELSE <<>>
 
 \* close() waits for the comm thread (join).  radio: the thread ends at its next look at the stop
-\* flag; usb: when its pending read returns -- with an unplugged device that read reports an error
-\* first (TErr); tcp: its threads end unseen
+\* flag; usb: at the top of its loop, or when its pending read returns -- with an unplugged device
+\* that read reports an error first (TErr); tcp: its threads end unseen
 Joined == \/ thr \in {"none", "done"}
           \/ kind = "tcp"
-          \/ kind = "usb" /\ dev # "gone"
+          \/ kind = "usb" /\ (tpc = "tx" \/ dev # "gone")
           \/ Bug = "noJoin"
 
 CloseB(f) == /\ Free /\ f \in (Faults \cap KindFaults(kind))
@@ -183,15 +184,16 @@ CloseE == /\ upc = "close" /\ (owed => dev # "ok") /\ (fresh \/ Joined)
                          req, sess, nreq, nidle, lostrow, lasto, nerr>>
 
 \* ------------------------------------------------------------------ environment
-Unplug == /\ Free /\ ~fresh /\ dev # "gone"
+Unplug == /\ Free /\ ~fresh
           /\ Log("unplug", 0)
           /\ dev' = "gone" /\ jam' = 0 /\ nops' = nops + 1
           /\ UNCHANGED <<cfgv, upc, cbc, handle, fresh, thr, sp, tpc, cur, hs, outq, fault, owed,
                          req, sess, nreq, nidle, lostrow, lasto, nerr>>
 
-Jam == /\ Free /\ kind = "radio" /\ dev = "ok" /\ thr = "run"
+Jam == /\ Free /\ kind = "radio" /\ ~fresh
        /\ Log("jam", 0)
-       /\ dev' = "jam" /\ jam' = JamLen /\ nops' = nops + 1
+       /\ dev' = (IF dev = "gone" THEN "gone" ELSE "jam")
+       /\ jam' = (IF dev = "gone" THEN 0 ELSE JamLen) /\ nops' = nops + 1
        /\ UNCHANGED <<cfgv, upc, cbc, handle, fresh, thr, sp, tpc, cur, hs, outq, fault, owed,
                       req, sess, nreq, nidle, lostrow, lasto, nerr>>
 
@@ -253,15 +255,23 @@ TGet(a) == /\ kind = "radio" /\ thr = "run" /\ tpc = "get" /\ cbc = "idle"
            /\ UNCHANGED <<cfgv, upc, cbc, handle, fresh, sp, hs, dev, jam, fault, owed,
                           req, sess, nreq, nops, nidle, lostrow, lasto, nerr, h, mon>>
 
-\* ------------------------------------------------------------------ usb comm thread: reads; an unplugged device
-\* makes every read fail and the failure is reported (event lerr); then the loop looks at the stop flag
-TErr == /\ kind = "usb" /\ thr = "run" /\ cbc = "idle" /\ dev = "gone" /\ nerr < MaxErr
+\* ------------------------------------------------------------------ usb comm thread: { stop flag?; read } for ever
+\*   tpc = "tx"  : at the top of its loop (just started, or back from a read)
+\*   tpc = "ack" : inside a read (which times out after 20 ms, returns data, or fails)
+\* An unplugged device makes the read fail and the failure is reported (event lerr).
+TRead == /\ kind = "usb" /\ thr = "run" /\ cbc = "idle" /\ ~sp
+         /\ tpc = "tx" \/ (tpc = "ack" /\ dev # "gone")
+         /\ tpc' = "ack"
+         /\ UNCHANGED <<cfgv, upc, cbc, handle, fresh, thr, sp, cur, hs, outq, dev, jam, fault, owed,
+                        req, sess, nreq, nops, nidle, lostrow, lasto, nerr, h, mon>>
+
+TErr == /\ kind = "usb" /\ thr = "run" /\ cbc = "idle" /\ tpc = "ack" /\ dev = "gone" /\ nerr < MaxErr
         /\ Log("lerr", 0)
-        /\ nerr' = nerr + 1
+        /\ nerr' = nerr + 1 /\ tpc' = "tx"
         /\ IF cbcl /\ upc = "idle"
            THEN cbc' = "pend" /\ thr' = thr
            ELSE cbc' = cbc /\ thr' = IF sp THEN "done" ELSE thr
-        /\ UNCHANGED <<cfgv, upc, handle, fresh, sp, tpc, cur, hs, outq, dev, jam, fault, owed,
+        /\ UNCHANGED <<cfgv, upc, handle, fresh, sp, cur, hs, outq, dev, jam, fault, owed,
                        req, sess, nreq, nops, nidle, lostrow, lasto>>
 
 \* ------------------------------------------------------------------ close() called by the link-error callback, i.e.
@@ -285,7 +295,7 @@ Next == \/ ConnB \/ ConnW \/ ConnE
         \/ Unplug \/ Jam
         \/ (\E o \in {"A", "L"} : TWr(o)) \/ TWx \/ TAck
         \/ (\E a \in 0..MaxReq : TGet(a))
-        \/ TErr \/ CbCloseB \/ CbCloseE
+        \/ TRead \/ TErr \/ CbCloseB \/ CbCloseE
 
 Spec == Init /\ [][Next]_vars
 
